@@ -106,9 +106,9 @@ func newS(a string) *S {
 `
 
 type variable struct {
-	name  string
-	typ   Type
-	addr  bool // addressable (a variable, not a range copy etc.)
+	name   string
+	typ    Type
+	addr   bool // addressable (a variable, not a range copy etc.)
 	const_ bool
 }
 
@@ -123,17 +123,17 @@ type Fn struct {
 
 // Program is a generated program.
 type Program struct {
-	Main     string // main.go
-	Sources  map[int]string // line -> source function
-	Sinks    map[int]string // line -> sink function
-	SrcFunc  map[int]string // line -> enclosing function
-	SinkFunc map[int]string
-	Direct   map[[2]int]bool // (source line, sink line) pairs where the sunk variable directly received the source result
-	Feats    map[string]bool
-	NBits    int
+	Main       string         // main.go
+	Sources    map[int]string // line -> source function
+	Sinks      map[int]string // line -> sink function
+	SrcFunc    map[int]string // line -> enclosing function
+	SinkFunc   map[int]string
+	Direct     map[[2]int]bool // (source line, sink line) pairs where the sunk variable directly received the source result
+	Feats      map[string]bool
+	NBits      int
 	Sanitizers []string
 	Validators []string
-	Excluded int // draws diverted because a feature is switched off by a known finding
+	Excluded   int // draws diverted because a feature is switched off by a known finding
 }
 
 // FeatList returns the sorted feature labels.
@@ -160,23 +160,23 @@ type Profile struct {
 }
 
 type gen struct {
-	t      *rapid.T
-	p      *Profile
-	lines  []string
-	indent int
-	nvar   int
-	scope  []variable
-	fns    []*Fn
-	curFn  int // index of the function being generated (may call fns with larger index); -1 for main
-	curName string
-	nbits  int
-	depth  int
-	prog   *Program
-	inDefer bool
-	inLoop int
-	results []Type // results of the function being generated
-	directSrc map[string]int // variable -> source line it directly received
-	nlabel int
+	t            *rapid.T
+	p            *Profile
+	lines        []string
+	indent       int
+	nvar         int
+	scope        []variable
+	fns          []*Fn
+	curFn        int // index of the function being generated (may call fns with larger index); -1 for main
+	curName      string
+	nbits        int
+	depth        int
+	prog         *Program
+	inDefer      bool
+	inLoop       int
+	results      []Type         // results of the function being generated
+	directSrc    map[string]int // variable -> source line it directly received
+	nlabel       int
 	closureDepth int
 }
 
